@@ -323,15 +323,33 @@ func runC15(c *h.Ctx) {
 		// services and methods
 		nsvc := 1 + cs.R.Intn(3)
 		mid := 0
+		mode := []meta.ParseServiceMode{meta.LastServiceOnly, meta.FirstServiceOnly, meta.CombineServices}[cs.R.Intn(3)]
+		var earlier []string // method names of the services before the current one
 		mk := func() []gen.PMethod {
 			var ms []gen.PMethod
+			used := map[string]bool{}
+			defer func() {
+				for _, m := range ms {
+					earlier = append(earlier, m.Name)
+				}
+			}()
 			for k := 1 + cs.R.Intn(3); k > 0; k-- {
 				mid++
+				name := fmt.Sprintf("Call%d", mid)
+				// method names are scoped by their service: two services may both declare e.g. Call1 (only when one
+				// service is selected; what the combined service does with the clash is not stated)
+				if mode != meta.CombineServices && len(earlier) > 0 && cs.R.Chance(35) {
+					if n := earlier[cs.R.Intn(len(earlier))]; !used[n] {
+						name = n
+						cs.Cover("method_name_shared_between_services")
+					}
+				}
+				used[name] = true
 				in, out := sc.All[cs.R.Intn(len(sc.All))], sc.All[cs.R.Intn(len(sc.All))]
 				if imp != nil && cs.R.Chance(20) {
 					out = imp.All[cs.R.Intn(len(imp.All))]
 				}
-				ms = append(ms, gen.PMethod{Name: fmt.Sprintf("Call%d", mid), In: in, Out: out, ClientStream: cs.R.Chance(25), ServerStream: cs.R.Chance(25)})
+				ms = append(ms, gen.PMethod{Name: name, In: in, Out: out, ClientStream: cs.R.Chance(25), ServerStream: cs.R.Chance(25)})
 			}
 			return ms
 		}
@@ -352,7 +370,6 @@ func runC15(c *h.Ctx) {
 			cs.Info("oracle-error", err.Error())
 			return
 		}
-		mode := []meta.ParseServiceMode{meta.LastServiceOnly, meta.FirstServiceOnly, meta.CombineServices}[cs.R.Intn(3)]
 		cs.Info("mode", int(mode))
 		opts := dproto.Options{ParseServiceMode: mode}
 		includes := map[string]string{}
